@@ -287,6 +287,12 @@ impl DeclareCommand {
             .env_mut()
             .get_mut_using_policy(name.as_str(), lookup)
         {
+            // An assignment to a readonly variable fails as a whole: it must not leave new
+            // attributes behind either.
+            if initial_value.is_some() && var.is_readonly() {
+                return Err(ErrorKind::ReadonlyVariable.into());
+            }
+
             if self.make_associative_array.is_some() {
                 var.convert_to_associative_array()?;
             }
